@@ -68,6 +68,7 @@ func StopAll() {
 // EP describes an endpoint for Setup.
 type EP struct {
 	Backend  int    // index into Raw; -1 = a port where nothing listens (connection refused)
+	URL      string // overrides Backend: the endpoint's base URL as given (e.g. hx.Blackhole())
 	Type     string // endpoint type (default openai-compatible)
 	Priority int
 	Preserve bool
@@ -86,7 +87,9 @@ func (r *Rig) Setup(eps []EP) (names, urls []string, err error) {
 			t = "openai-compatible"
 		}
 		var url string
-		if e.Backend >= 0 {
+		if e.URL != "" {
+			url = e.URL
+		} else if e.Backend >= 0 {
 			url = r.Raw[e.Backend].URL()
 			r.Raw[e.Backend].Reset()
 		} else {
@@ -107,4 +110,3 @@ func (r *Rig) Setup(eps []EP) (names, urls []string, err error) {
 	r.S.SetAll(domain.StatusHealthy)
 	return names, urls, nil
 }
-
